@@ -216,7 +216,7 @@ def run(ctx):
     def oc_fclose(ex_, st, f_, e, cal, args):
         if cal == "fclose" and args and args[0][0] == "ptr" and str(args[0][1]).startswith("FILE:"):
             fclose_mode.setdefault((f_.key, e), set()).add(args[0][1][5:])
-    exm = absint.Explorer(prog, effects=eff, summaries={"fopen": s_fopen}, on_call=oc_fclose, loop_bound=2, max_paths=30000)
+    exm = absint.Explorer(prog, effects=eff, summaries={"fopen": s_fopen, "fdopen": s_fopen}, on_call=oc_fclose, loop_bound=2, max_paths=30000)
     exm.run(mt, [TOP] * len(mt.params), {})
     for g in parts:
         for node in g.calls():
